@@ -315,6 +315,16 @@ def run(ctx):
             n += 1
     from .. import coldstart
     n += coldstart.phase(ctx, overlap_jobs(), 'written bytes conformant', offset=3)
+    if ctx.shard == 4 % ctx.nshards:
+        # the same kinds of files again after other (often failing, or result-editing) calls elsewhere in mido
+        from .. import gen
+        for pi, (name, thunk) in enumerate(gen.perturbations()):
+            gen.run_quietly(thunk)
+            for j in range(2):
+                seed = f'{ctx.seed}:after:{pi}:{j}'
+                write_case(ctx, seed)
+                n += read_case(ctx, seed + 'r') + 1
+        ctx.extra('cases_after_perturbations', 4 * len(gen.perturbations()))
     nr = 40 if ctx.tier == 'quick' else 2500
     for j in range(nr):
         seed = f'{ctx.seed}:{ctx.shard}:r{j}'
